@@ -646,6 +646,48 @@ func c01CommitBeforeCommitment(c *Ctx) {
 	if n < 1 {
 		c.und("commit-before-commitment", "core/state.State.commit", "", "no stateObject.commitment call found in commit")
 	}
+	// … and committing an object re-derives its storage root from the storage trie on every successful path: no success
+	// return of (*stateObject).commit precedes the trie's Commit() and the store of its root into the record — the root kept
+	// in the record is not authoritative (zero in records written by the head-state migration; seeded change C01-J returns
+	// early when it is zero and the block has no storage writes)
+	if f := p.Func("core/state", "stateObject", "commit"); f != nil {
+		var commits, stores []ssa.Instruction
+		for _, ds := range p.deepSites(f, func(x Site) bool {
+			return x.Callee != nil && x.Callee.Name() == "Commit" && strings.Contains(qname(x.Callee), "trie2")
+		}, 1) {
+			commits = append(commits, ds.outer())
+		}
+		allInstrsOne(f, func(in ssa.Instruction) {
+			if st, ok := in.(*ssa.Store); ok && strings.HasSuffix(term(st.Addr), ".StorageRoot") && strings.Contains(termF(st.Val), "Commit()") {
+				stores = append(stores, in)
+			}
+		})
+		k := 0
+		bad := ""
+		for _, ret := range returnsOf(f) {
+			if len(ret.Results) == 0 || !isNilConst(ret.Results[len(ret.Results)-1]) {
+				continue
+			}
+			k++
+			okc, oks := false, false
+			for _, ci := range commits {
+				if dominatesInstr(ci, ret.Ret) {
+					okc = true
+				}
+			}
+			for _, si := range stores {
+				if dominatesInstr(si, ret.Ret) {
+					oks = true
+				}
+			}
+			if !okc || !oks {
+				bad = p.Pos(posOf(ret.Ret, f))
+			}
+		}
+		c.check(bad == "" && k > 0, "commit-before-commitment", "(*stateObject).commit: root re-derived on every success path", p.Pos(fnPos(f)), "every successful return follows tr.Commit() and the store of its root into the contract record", "the successful return at "+bad+" is reached without committing the storage trie and storing its root: the leaf commitment is then computed from the root kept in the record, which is not authoritative")
+	} else {
+		c.und("commit-before-commitment", "core/state.stateObject.commit", "", "anchor not found")
+	}
 }
 
 // c01TracerFullPath: the node tracer records node *paths*. Inside the recursive walkers the path of the node at hand is
